@@ -2145,17 +2145,275 @@ let check_cfg kind t i e impl =
             | _ -> v_bad)
          | XH -> v_bad)))
 
+(** val sum16 : n list -> n **)
+
+let rec sum16 = function
+| [] -> N0
+| h :: l0 ->
+  (match l0 with
+   | [] -> N.mul h (Npos (XO (XO (XO (XO (XO (XO (XO (XO XH)))))))))
+   | l :: r ->
+     N.add
+       (N.add (N.mul h (Npos (XO (XO (XO (XO (XO (XO (XO (XO XH)))))))))) l)
+       (sum16 r))
+
+(** val fold16 : n -> n **)
+
+let fold16 s =
+  let s1 =
+    N.add
+      (N.modulo s (Npos (XO (XO (XO (XO (XO (XO (XO (XO (XO (XO (XO (XO (XO
+        (XO (XO (XO XH))))))))))))))))))
+      (N.div s (Npos (XO (XO (XO (XO (XO (XO (XO (XO (XO (XO (XO (XO (XO (XO
+        (XO (XO XH))))))))))))))))))
+  in
+  N.add
+    (N.modulo s1 (Npos (XO (XO (XO (XO (XO (XO (XO (XO (XO (XO (XO (XO (XO
+      (XO (XO (XO XH))))))))))))))))))
+    (N.div s1 (Npos (XO (XO (XO (XO (XO (XO (XO (XO (XO (XO (XO (XO (XO (XO
+      (XO (XO XH))))))))))))))))))
+
+(** val icmp6_cksum_ok : n list -> n list -> n list -> bool **)
+
+let icmp6_cksum_ok src dst b =
+  N.eqb
+    (fold16
+      (sum16
+        (app src
+          (app dst
+            (app (be32 (lenN b))
+              (app (N0 :: (N0 :: (N0 :: ((Npos (XO (XI (XO (XI (XI
+                XH)))))) :: [])))) b)))))) (Npos (XI (XI (XI (XI (XI (XI (XI
+    (XI (XI (XI (XI (XI (XI (XI (XI XH))))))))))))))))
+
+(** val is_linklocal : n list -> bool **)
+
+let is_linklocal = function
+| [] -> false
+| n0 :: l ->
+  (match n0 with
+   | N0 -> false
+   | Npos p0 ->
+     (match p0 with
+      | XO p1 ->
+        (match p1 with
+         | XI p2 ->
+           (match p2 with
+            | XI p3 ->
+              (match p3 with
+               | XI p4 ->
+                 (match p4 with
+                  | XI p5 ->
+                    (match p5 with
+                     | XI p6 ->
+                       (match p6 with
+                        | XI p7 ->
+                          (match p7 with
+                           | XH ->
+                             (match l with
+                              | [] -> false
+                              | n1 :: r ->
+                                (match n1 with
+                                 | N0 -> false
+                                 | Npos p8 ->
+                                   (match p8 with
+                                    | XO p9 ->
+                                      (match p9 with
+                                       | XO p10 ->
+                                         (match p10 with
+                                          | XO p11 ->
+                                            (match p11 with
+                                             | XO p12 ->
+                                               (match p12 with
+                                                | XO p13 ->
+                                                  (match p13 with
+                                                   | XO p14 ->
+                                                     (match p14 with
+                                                      | XO p15 ->
+                                                        (match p15 with
+                                                         | XH ->
+                                                           (&&)
+                                                             (all_zero
+                                                               (takeN (Npos
+                                                                 (XO (XI
+                                                                 XH))) r))
+                                                             (N.eqb (lenN r)
+                                                               (Npos (XO (XI
+                                                               (XI XH)))))
+                                                         | _ -> false)
+                                                      | _ -> false)
+                                                   | _ -> false)
+                                                | _ -> false)
+                                             | _ -> false)
+                                          | _ -> false)
+                                       | _ -> false)
+                                    | _ -> false)))
+                           | _ -> false)
+                        | _ -> false)
+                     | _ -> false)
+                  | _ -> false)
+               | _ -> false)
+            | _ -> false)
+         | _ -> false)
+      | _ -> false))
+
+(** val all_nodes : n list **)
+
+let all_nodes =
+  (Npos (XI (XI (XI (XI (XI (XI (XI XH)))))))) :: ((Npos (XO
+    XH)) :: (N0 :: (N0 :: (N0 :: (N0 :: (N0 :: (N0 :: (N0 :: (N0 :: (N0 :: (N0 :: (N0 :: (N0 :: (N0 :: ((Npos
+    XH) :: [])))))))))))))))
+
+(** val zero_cksum : n list -> n list **)
+
+let zero_cksum b = match b with
+| [] -> b
+| t :: l ->
+  (match l with
+   | [] -> b
+   | c :: l0 ->
+     (match l0 with
+      | [] -> b
+      | _ :: l1 ->
+        (match l1 with
+         | [] -> b
+         | _ :: r -> t :: (c :: (N0 :: (N0 :: r))))))
+
+(** val check_wire : top -> intf -> env -> n list -> n list **)
+
+let check_wire t i e = function
+| [] -> v_bad
+| n0 :: w ->
+  (match n0 with
+   | N0 -> (match w with
+            | [] -> v_diff (N0 :: [])
+            | _ :: _ -> v_bad)
+   | Npos p0 ->
+     (match p0 with
+      | XH ->
+        (match pbind (p_take (Npos (XO (XO (XO (XO XH)))))) (fun src ->
+                 pbind (p_take (Npos (XO (XO (XO (XO XH)))))) (fun dst ->
+                   pbind p_n (fun hl ->
+                     pbind (p_take (Npos (XO (XO (XO (XO XH))))))
+                       (fun ifll ->
+                       pbind (p_take (Npos (XO (XO (XO (XO XH))))))
+                         (fun sol ->
+                         pbind p_str (fun b ->
+                           pret (((((src, dst), hl), ifll), sol), b))))))) w with
+         | Some p1 ->
+           let (p2, l) = p1 in
+           let (p3, b) = p2 in
+           let (p4, sol) = p3 in
+           let (p5, ifll) = p4 in
+           let (p6, hl) = p5 in
+           let (src, dst) = p6 in
+           (match l with
+            | [] ->
+              if negb (lengths_ok b)
+              then v_viol (Npos (XO XH))
+              else if negb (reserved_zero b)
+                   then v_viol (Npos (XI XH))
+                   else (match rfc_decode b with
+                         | Some x ->
+                           if negb (rfc_ra_eqb x (expected t i e))
+                           then v_viol (Npos (XI (XI XH)))
+                           else if negb
+                                     ((&&)
+                                       ((&&)
+                                         ((&&)
+                                           (N.eqb hl (Npos (XI (XI (XI (XI
+                                             (XI (XI (XI XH)))))))))
+                                           (bytes_eqb src ifll))
+                                         (is_linklocal src))
+                                       (icmp6_cksum_ok src dst b))
+                                then v_viol (Npos (XO (XO (XO XH))))
+                                else if negb
+                                          (list_eqb N.eqb
+                                            (N0 :: (put_bytes (zero_cksum b)))
+                                            (model_out (build t i e)))
+                                     then v_diff (model_out (build t i e))
+                                     else if bytes_eqb dst sol
+                                          then v_ok (Npos (XO (XO (XI (XI (XO
+                                                 (XI (XO (XO XH)))))))))
+                                          else if bytes_eqb dst all_nodes
+                                               then v_ok (Npos (XI (XO (XI
+                                                      (XI (XO (XI (XO (XO
+                                                      XH)))))))))
+                                               else v_diff ((Npos XH) :: sol)
+                         | None -> v_viol (Npos (XI (XI XH))))
+            | _ :: _ -> v_bad)
+         | None -> v_bad)
+      | _ -> v_bad))
+
 (** val check_C17 : n list -> n list **)
 
 let check_C17 = function
 | [] -> v_bad
 | kind :: r ->
-  if negb ((||) (N.eqb kind (Npos XH)) (N.eqb kind (Npos (XO XH))))
-  then v_bad
-  else (match pbind p_top (fun t ->
-                pbind p_intf (fun i ->
-                  pbind p_env (fun e -> pret ((t, i), e)))) r with
-        | Some p0 ->
-          let (p1, impl) = p0 in
-          let (p2, e) = p1 in let (t, i) = p2 in check_cfg kind t i e impl
-        | None -> v_bad)
+  (match kind with
+   | N0 ->
+     if negb ((||) (N.eqb kind (Npos XH)) (N.eqb kind (Npos (XO XH))))
+     then v_bad
+     else (match pbind p_top (fun t ->
+                   pbind p_intf (fun i ->
+                     pbind p_env (fun e -> pret ((t, i), e)))) r with
+           | Some p0 ->
+             let (p1, impl) = p0 in
+             let (p2, e) = p1 in let (t, i) = p2 in check_cfg kind t i e impl
+           | None -> v_bad)
+   | Npos p0 ->
+     (match p0 with
+      | XI p1 ->
+        (match p1 with
+         | XI _ ->
+           if negb ((||) (N.eqb kind (Npos XH)) (N.eqb kind (Npos (XO XH))))
+           then v_bad
+           else (match pbind p_top (fun t ->
+                         pbind p_intf (fun i ->
+                           pbind p_env (fun e -> pret ((t, i), e)))) r with
+                 | Some p2 ->
+                   let (p3, impl) = p2 in
+                   let (p4, e) = p3 in
+                   let (t, i) = p4 in check_cfg kind t i e impl
+                 | None -> v_bad)
+         | XO _ ->
+           if negb ((||) (N.eqb kind (Npos XH)) (N.eqb kind (Npos (XO XH))))
+           then v_bad
+           else (match pbind p_top (fun t ->
+                         pbind p_intf (fun i ->
+                           pbind p_env (fun e -> pret ((t, i), e)))) r with
+                 | Some p2 ->
+                   let (p3, impl) = p2 in
+                   let (p4, e) = p3 in
+                   let (t, i) = p4 in check_cfg kind t i e impl
+                 | None -> v_bad)
+         | XH ->
+           (match pbind p_top (fun t ->
+                    pbind p_intf (fun i ->
+                      pbind p_env (fun e -> pret ((t, i), e)))) r with
+            | Some p2 ->
+              let (p3, w) = p2 in
+              let (p4, e) = p3 in let (t, i) = p4 in check_wire t i e w
+            | None -> v_bad))
+      | XO _ ->
+        if negb ((||) (N.eqb kind (Npos XH)) (N.eqb kind (Npos (XO XH))))
+        then v_bad
+        else (match pbind p_top (fun t ->
+                      pbind p_intf (fun i ->
+                        pbind p_env (fun e -> pret ((t, i), e)))) r with
+              | Some p1 ->
+                let (p2, impl) = p1 in
+                let (p3, e) = p2 in
+                let (t, i) = p3 in check_cfg kind t i e impl
+              | None -> v_bad)
+      | XH ->
+        if negb ((||) (N.eqb kind (Npos XH)) (N.eqb kind (Npos (XO XH))))
+        then v_bad
+        else (match pbind p_top (fun t ->
+                      pbind p_intf (fun i ->
+                        pbind p_env (fun e -> pret ((t, i), e)))) r with
+              | Some p1 ->
+                let (p2, impl) = p1 in
+                let (p3, e) = p2 in
+                let (t, i) = p3 in check_cfg kind t i e impl
+              | None -> v_bad)))
